@@ -2,6 +2,7 @@
 import copy
 import math
 import numpy as np
+import pints
 
 import core
 import toy
@@ -467,12 +468,84 @@ class PopPredAdapter(Adapter):
 TAG22 = 'C08.sensitivities_with_all_mechanistic_parameters_fixed'
 
 
+class ControllerAdapter(Adapter):
+    """the problem controller: fix_parameters on the controller, then the posterior / predictive model it hands
+    out are compared with those of an unfixed twin controller at the substituted vector"""
+    kind = 'ProblemModellingController'
+
+    def __init__(self, chi, rng):
+        import pandas as pd
+        n_out, n_par = int(rng.integers(1, 3)), int(rng.integers(1, 4))
+        seed = int(rng.integers(1000))
+        ems_idx = [int(rng.integers(4)) for _ in range(n_out)]
+        rows = []
+        for o in range(n_out):
+            for t in np.sort(rng.choice(np.arange(1, 20) * 0.25, int(rng.integers(1, 5)), replace=False)):
+                rows.append({'ID': 7, 'Time': float(t), 'Observable': 'obs%d' % o, 'Value': float(rng.uniform(0.5, 3.0))})
+        df = pd.DataFrame(rows)
+        self.times = [0.5, 1.5]
+
+        def build():
+            c = chi.ProblemModellingController(toy.ToyModel(n_out, n_par, seed), [em_classes(chi)[i]() for i in ems_idx])
+            c.set_data(df, output_observable_dict={'out%d' % o: 'obs%d' % o for o in range(n_out)})
+            return c
+        self.obj, self.refc = build(), build()
+        self.ref_names = list(self.refc.get_parameter_names())
+        self.refc.set_log_prior(self.flat(len(self.ref_names)))
+        self.ref_post = self.first(self.refc.get_log_posterior())
+        self.ref_pred = self.refc.get_predictive_model()
+
+    @staticmethod
+    def flat(n):
+        pr = [pints.UniformLogPrior(-1000.0, 1000.0) for _ in range(n)]
+        return pints.ComposedLogPrior(*pr) if n > 1 else pr[0]
+
+    @staticmethod
+    def first(p):
+        return p[0] if isinstance(p, (list, tuple)) else p
+
+    def names(self):
+        return self.ref_names
+
+    def fix(self, d):
+        self.obj.fix_parameters(d)
+
+    def reported(self):
+        return list(self.obj.get_parameter_names()), self.obj.get_n_parameters(), None
+
+    def evals(self, free):
+        self.obj.set_log_prior(self.flat(len(free)))
+        post = self.first(self.obj.get_log_posterior())
+        ll = post.get_log_likelihood()
+        out = {'value': ll(free), 'pointwise': ll.compute_pointwise_ll(free),
+               'names_of_posterior': list(post.get_parameter_names())}
+        try:
+            sc, g = ll.evaluateS1(free)
+            out['S1score'], out['grad'] = sc, g
+        except ValueError:
+            out['grad'] = 'err:valueError'
+        pm = self.obj.get_predictive_model()
+        out['names_of_predictive_model'] = list(pm.get_parameter_names())
+        out['sample'] = pm.sample(free, self.times, n_samples=2, seed=5, return_df=False)
+        return out
+
+    def ref_evals(self, full, mask):
+        ll = self.ref_post.get_log_likelihood()
+        sc, g = ll.evaluateS1(full)
+        free_names = [n for n, m in zip(self.ref_names, mask) if m]
+        return {'value': ll(full), 'pointwise': ll.compute_pointwise_ll(full), 'S1score': sc,
+                'grad': np.asarray(g)[mask], 'names_of_posterior': free_names,
+                'names_of_predictive_model': free_names,
+                'sample': self.ref_pred.sample(full, self.times, n_samples=2, seed=5, return_df=False)}
+
+
 def all_mech_fixed(names, net):
     mech = [n for n in names if n.startswith('psi')]
     return bool(mech) and all(n in net for n in mech)
 
 
-ADAPTERS = [ErrAdapter, MechAdapter, PopAdapter, LLAdapter, PredAdapter, PopPredAdapter, SharedLLAdapter]
+ADAPTERS = [ErrAdapter, MechAdapter, PopAdapter, LLAdapter, PredAdapter, PopPredAdapter, SharedLLAdapter,
+            ControllerAdapter]
 
 
 # ----------------------------------------------------------------------------------------------
@@ -574,6 +647,10 @@ def compare(ctx, ad, ops_so_far, rng, inp):
             ctx.spec(TAG22 if all_mech_fixed(names, net) else 'C08.grad_raises/' + ad.kind.split('/')[0],
                      False, inp, {'raised': g})
             continue
+        if label.startswith('names'):
+            ctx.spec('C08.%s/%s' % (label, ad.kind.split('/')[0]), list(g) == list(w), inp,
+                     {'reported': list(g), 'expected': list(w)})
+            continue
         ok = core.close(np.asarray(g, float), np.asarray(w, float))
         ctx.spec('C08.%s/%s' % (label, ad.kind.split('/')[0]), ok, inp,
                  {'reduced': np.asarray(g, float), 'unfixed_at_substituted': np.asarray(w, float)})
@@ -641,7 +718,7 @@ def exhaustive(ctx, chi):
 
 def run(ctx):
     chi = core.import_chi()
-    n = 350 if ctx.tier == 'quick' else 8400
+    n = 480 if ctx.tier == 'quick' else 9600
     for i in range(n):
         rng = ctx.sub_rng(i)
         A = ADAPTERS[i % len(ADAPTERS)]
